@@ -360,6 +360,7 @@ func (w *World) Stall(c int) {
 	w.stalled[c] = make(chan struct{})
 	w.mu.Unlock()
 	w.op(fmt.Sprintf("br stall %d", c))
+	w.record(ev{kind: "stall", conn: c})
 	w.o.Count("stim/stall")
 }
 
@@ -510,6 +511,21 @@ func (w *World) finish() {
 			w.Drop(c)
 		}
 	}
+	// flush: every well-behaved peer acknowledges what it received until nothing is outstanding, so that at the
+	// end no window slot can explain an undelivered message (monMissing)
+	for round := 0; round < 50; round++ {
+		any := false
+		for c := 1; c <= w.nconn; c++ {
+			if w.alive(c) && w.peers[c].connected && len(w.peers[c].unacked) > 0 {
+				w.AckAll(c)
+				any = true
+			}
+		}
+		if !any {
+			break
+		}
+	}
+	w.record(ev{kind: "finish"})
 	w.BackendClose()
 	for c := 1; c <= w.nconn; c++ {
 		if w.alive(c) {
